@@ -211,6 +211,26 @@ def run(ck: Check):
             ck.count("model_vs_impl_index_tensors")
             if [[[list(g) for g in p] for p in k] for k in mv] != ab:
                 ck.broke("correspondence", "Model/ConvNet.sliding_indices", f"geometry {geo}: model differs from layer.indices")
+    # training mode on a CONSTANT image: all windows are identical, so a tree that does not depend on the position gives one value per
+    # kernel (and per batch row).  Holds for soft / hard sampling and for raw Gumbel sampling (noise drawn once per kernel and node);
+    # Walsh Gumbel sampling draws its noise per activation, i.e. per output position (recorded finding F32).
+    from torchlogix.layers import LogicConv2d as _LC2
+    for par in ("raw", "walsh"):
+        for mode in ("soft", "hard", "gumbel_soft", "gumbel_hard"):
+            torch.manual_seed(ck.seed + 9)
+            lc = _LC2(in_dim=(6, 6), device="cpu", channels=1, num_kernels=3, tree_depth=2, receptive_field_size=3, parametrization=par,
+                      weight_init="random", forward_sampling=mode, temperature=0.7)
+            lc.train()
+            xc = torch.full((2, 1, 6, 6), 0.0)
+            xc[1] = 1.0
+            with torch.no_grad():
+                yc_ = lc(xc).reshape(2, 3, -1)
+            spread = float((yc_.max(dim=2).values - yc_.min(dim=2).values).max())
+            ck.case({"kind": "constant-image", "param": par, "mode": mode}, nontrivial=True, kind="constant-image")
+            if spread > 1e-6:
+                ck.disagree("in training mode the sampled gate tree differs between output positions (identical windows give different outputs)",
+                            {"param": par, "mode": mode, "max_spread_over_positions": spread},
+                            signature={"what": "position-dependent-sampling", "param": par, "gumbel": mode.startswith("gumbel")})
     # a very long strip: coordinates beyond 2^15 (index tables must not be held in a narrow integer type)
     from torchlogix.layers import LogicConv2d
     torch.manual_seed(ck.seed + 5)
